@@ -37,7 +37,17 @@ type Outer struct {
 	H string
 }
 
-var goTypes = map[string]reflect.Type{"Inner": reflect.TypeOf(Inner{}), "Outer": reflect.TypeOf(Outer{})}
+// Emb and EmbP embed Inner by value and by pointer: its fields are promoted (GoValues.tla lists them flat).
+type Emb struct {
+	Inner
+	Z float64
+}
+type EmbP struct {
+	*Inner
+	Z float64
+}
+
+var goTypes = map[string]reflect.Type{"Inner": reflect.TypeOf(Inner{}), "Outer": reflect.TypeOf(Outer{}), "Emb": reflect.TypeOf(Emb{}), "EmbP": reflect.TypeOf(EmbP{})}
 
 func elemType(name string) reflect.Type {
 	switch name {
@@ -59,6 +69,11 @@ func materialise(d interface{}) reflect.Value {
 	case "gstruct":
 		t := goTypes[a[1].(string)]
 		v := reflect.New(t).Elem()
+		for i := 0; i < t.NumField(); i++ { // an embedded pointer is allocated before its promoted fields are set
+			if f := t.Field(i); f.Anonymous && f.Type.Kind() == reflect.Ptr {
+				v.Field(i).Set(reflect.New(f.Type.Elem()))
+			}
+		}
 		for _, f := range a[2].([]interface{}) {
 			p := f.([]interface{})
 			v.FieldByName(cpsToString(p[0])).Set(materialise(p[1]))
